@@ -401,7 +401,69 @@ func keysOf(m map[string]bool) []string {
 	return out
 }
 
+// c01EmptyPathCallers: the stage walker lets a bare scalar through when its key path is
+// empty ("a scalar where a stage document is expected" - J5); that licence is sound only if
+// an empty key path is handed to it for the elements of a pipeline alone - the command's
+// pipeline and Pipeline-typed arguments. An operand position ($and / $or clauses, any other
+// value) walked with an empty path would have its scalar literals emitted verbatim.
+func c01EmptyPathCallers(c *Ctx, r *Report, p *Prov) {
+	sw := c.stageWalkerFn()
+	cmdFn := p.cmdWalker()
+	if sw == nil || cmdFn == nil {
+		return
+	}
+	pi := -1
+	for i, prm := range sw.Params {
+		if isStringSlice(prm.Type()) {
+			pi = i
+		}
+	}
+	if pi < 0 {
+		return
+	}
+	n := 0
+	for f := range p.Zone {
+		for _, call := range callsIn(f, func(k string, cc *ssa.Call) bool { return cc.Call.StaticCallee() == sw }) {
+			maybeEmpty := ""
+			for _, vs := range sourcesAt(call.Call.Args[pi], call.Block()) {
+				v := peel(vs.Val)
+				if l, _, ok := freshSlice(v); ok && l == 0 {
+					maybeEmpty = "an empty path literal"
+				} else if isNilConst(v) {
+					maybeEmpty = "a nil path"
+				} else if prm, ok := v.(*ssa.Parameter); ok {
+					nonEmpty := false
+					for _, a := range p.atomsAt(call.Block()) {
+						if a.Kind == "len" && a.X == ssa.Value(prm) && ((a.Pol && a.Name != "==0") || (!a.Pol && a.Name == "==0")) {
+							nonEmpty = true
+						}
+					}
+					if !nonEmpty {
+						maybeEmpty = "the caller's own path parameter (possibly empty)"
+					}
+				}
+			}
+			if maybeEmpty == "" {
+				continue
+			}
+			n++
+			okCtx := f == cmdFn
+			for _, a := range p.atomsAt(call.Block()) {
+				if a.Kind == "tbl" && a.Pol && a.Name == "Pipeline" {
+					okCtx = true
+				}
+			}
+			construct := fmt.Sprintf("%s:empty-path-call", f.Name())
+			r.Check(okCtx, "C01-R2", construct, c.InstrPos(call),
+				"the stage walker gets "+maybeEmpty+" for the elements of a pipeline only",
+				"the stage walker is given "+maybeEmpty+" at a position that is not a pipeline element: its rule 'a bare scalar with an empty key path is not a stage, return it unchanged' then emits scalar operands (literals) verbatim")
+		}
+	}
+	r.Analysed["empty_path_calls"] = n
+}
+
 func c01Sinks(c *Ctx, r *Report, p *Prov) {
+	c01EmptyPathCallers(c, r, p)
 	ss := p.sinks(p.Zone)
 	r.Floor("C01-R2", 60, "sink instructions in the walker functions (101 today)")
 	raw := 0
